@@ -163,6 +163,11 @@ _driver_built = False
 def run_driver(lines, timeout=3000):
     """feed request lines to the Lean model driver; returns the reply lines"""
     global _driver_built
+    if not _driver_built:
+        ok, log = lake_build(['NautilusVerif.Driver.All'])
+        if not ok:
+            raise RuntimeError('driver build failed: ' + log[-2000:])
+        _driver_built = True
     data = '\n'.join(lines) + '\n'
     with LeanLock():
         p = subprocess.run(['lake', 'env', 'lean', '--run', 'Driver/Main.lean'], cwd=LEAN, input=data,
